@@ -16,6 +16,9 @@
 #include "bitserializer/types/std/list.h"
 #include "bitserializer/types/std/array.h"
 #include "bitserializer/types/std/tuple.h"
+#include "bitserializer/types/std/set.h"
+#include "bitserializer/types/std/unordered_set.h"
+#include <unordered_set>
 
 using namespace arch;
 using refmp::Val; using RT = refmp::T;
@@ -212,6 +215,35 @@ template <class A, class T> void run_narrow_seq(vf::Ctx& c, int archId, const ch
 template <class A> void run_narrow(vf::Ctx& c, int archId) {
 	switch (c.src.draw(5)) { case 0: run_narrow_seq<A, float>(c, archId, "float"); break; case 1: run_narrow_seq<A, int8_t>(c, archId, "int8"); break; case 2: run_narrow_seq<A, uint16_t>(c, archId, "uint16"); break; case 3: run_narrow_seq<A, int32_t>(c, archId, "int32"); break; default: run_narrow_seq<A, uint32_t>(c, archId, "uint32"); break; }
 }
+// objects as elements of sets: every element is built afresh, so a skipped member must show the element type's own default, never what
+// an earlier element left behind in a temporary of the loader
+struct SetItem { int64_t id = -1; int64_t w = -424242; std::string s = "<s>"; double d = -0.5;
+	template <class Ar> void Serialize(Ar& ar) { ar << KeyValue("id", id) << KeyValue("w", w) << KeyValue("s", s) << KeyValue("d", d); }
+	bool operator<(const SetItem& o) const { return id < o.id; } bool operator==(const SetItem& o) const { return id == o.id; } };
+struct SetItemHash { size_t operator()(const SetItem& x) const { return std::hash<int64_t>()(x.id); } };
+template <class A, class C> void run_set_items(vf::Ctx& c, int archId, const char* name) {
+	const size_t n = 2 + c.src.draw(5); std::vector<SetItem> want(n); std::vector<Val> doc; bool laterOffence = false;
+	for (size_t i = 0; i < n; i++) {
+		SetItem& x = want[i]; x.id = static_cast<int64_t>(i) * 10 + static_cast<int64_t>(c.src.draw(10)); x.w = 1000 + static_cast<int64_t>(c.src.draw(100000)); x.s = "s" + std::to_string(c.src.draw(1000)); x.d = 0.25 * static_cast<double>(1 + c.src.draw(1000));
+		Val w = refmp::mkInt(x.w), sv = refmp::mkStr(x.s), dv = refmp::mkF64(x.d);
+		if (c.src.chance(1, 3)) { w = offending_value(c.src, RT::Int, archId); x.w = -424242; if (i > 0) laterOffence = true; }
+		if (c.src.chance(1, 5)) { dv = offending_value(c.src, RT::F64, archId); x.d = -0.5; if (i > 0) laterOffence = true; }
+		doc.push_back(refmp::mkMap({ { refmp::mkStr("id"), refmp::mkInt(x.id) }, { refmp::mkStr("w"), w }, { refmp::mkStr("s"), sv }, { refmp::mkStr("d"), dv } }));
+	}
+	std::string bytes; Cfg mem; Outcome so = dyn::save<A>(refmp::mkArr(doc), bytes, mem); if (!so.ok()) c.fail("saving the document failed", so.str());
+	Cfg cfg; cfg.stream = c.src.coin(); cfg.streamKind = cfg.stream ? gen_stream_kind(c.src, archId == MSGPACK) : 0; cfg.chunk = 1 + c.src.draw(40); cfg.opt.mismatchedTypesPolicy = MismatchedTypesPolicy::Skip; cfg.opt.overflowNumberPolicy = OverflowNumberPolicy::Skip;
+	c.nontrivial = laterOffence; c.describe(vf::cat(arch_name(archId), " ", name, " n=", n, " ", refmp::show(refmp::mkArr(doc)).substr(0, 200), " ", cfg.str()));
+	C target; Outcome lo = load<A>(target, bytes, cfg);
+	std::vector<SetItem> got(target.begin(), target.end()); std::sort(got.begin(), got.end()); std::string gs; for (auto& x : got) gs += vf::cat("{", x.id, " ", x.w, " ", x.s, " ", x.d, "} ");
+	const std::string d = vf::cat(arch_name(archId), " ", name, " doc=", refmp::show(refmp::mkArr(doc)).substr(0, 500), " [", cfg.str(), "] => ", lo.str(), " loaded=", gs);
+	if (!lo.ok()) c.fail("loading with the Skip policies ended in an exception", d);
+	if (got.size() != n) c.fail("a sequence changed its length because an element was skipped", d);
+	for (size_t i = 0; i < n; i++) { const bool offended = want[i].w == -424242 || want[i].d == -0.5;
+		if (got[i].id != want[i].id || got[i].s != want[i].s || got[i].w != want[i].w || got[i].d != want[i].d) c.fail(offended ? "the target of a skipped value was modified" : "a value that was not offended is loaded differently (neighbour disturbed)", vf::cat("element ", i, " | ", d)); }
+}
+template <class A> void run_sets(vf::Ctx& c, int archId) {
+	switch (c.src.draw(3)) { case 0: run_set_items<A, std::set<SetItem>>(c, archId, "set"); break; case 1: run_set_items<A, std::multiset<SetItem>>(c, archId, "multiset"); break; default: run_set_items<A, std::unordered_set<SetItem, SetItemHash>>(c, archId, "unordered_set"); }
+}
 // arrays longer than the 4096-element cap of the size estimate: elements behind the cap are appended one by one; a skipped one must still
 // occupy its position (it keeps the sentinel or is value-initialised), the length is unchanged and the neighbours are loaded
 template <class A, class C> void run_long_seq(vf::Ctx& c, int archId, const char* name) {
@@ -262,6 +294,8 @@ VF_PROPERTY(skip_long_sequences, 1, "arrays of 4090..4109 integers (around the 4
 }
 VF_PROPERTY(skip_narrow_number_sequences_msgpack, 2, "vector<float / int8 / uint16 / int32 / uint32> pre-filled with a sentinel, loaded with the Skip policies from an array (library-written or reference-encoded in any legal width) in which any subset of elements is a number the element type cannot hold (double beyond FLT_MAX; integer beyond the limits or negative for unsigned; huge double for integers): offended elements keep the sentinel, all others are loaded, the length is unchanged; memory, streams and file; non-trivial = an offended element is followed by another element") { run_narrow<MsgPackArchive>(c, MSGPACK); }
 VF_PROPERTY(skip_narrow_number_sequences_json, 1, "same through JSON") { run_narrow<JsonArchive>(c, JSON); }
+VF_PROPERTY(skip_in_set_elements_msgpack, 2, "std::set / multiset / unordered_set of objects {id, w, s, d} loaded with the Skip policies from an array of objects in which the members w (int64) and d (double) of any subset of elements are replaced by a mismatching / out-of-range value: every element keeps the default of a freshly constructed element for its skipped members (nothing of an earlier element leaks through the loader's temporary), all other members are loaded; non-trivial = an offence in an element that is not the first") { run_sets<MsgPackArchive>(c, MSGPACK); }
+VF_PROPERTY(skip_in_set_elements_json, 2, "same through JSON") { run_sets<JsonArchive>(c, JSON); }
 VF_PROPERTY(skip_typed_sequences_xml, 2, "same through XML (the sequence is the member 'seq' of the root)") { run_typed_seq<XmlArchive>(c, XML); }
 VF_PROPERTY(skip_dyn_msgpack, 5, "arbitrary tree (depth <= 3: arrays of scalars, arrays of objects, objects holding arrays, byte containers) with 1..6 values at any depth replaced by a certainly mismatching value (other scalar kind, string, array, object, out-of-range number), loaded with both Skip policies from memory and streams into a sentinel-filled target of the clean shape, followed by an envelope sentinel; non-trivial = an offence is followed by more data in the same array/object") { run_dyn<MsgPackArchive>(c, MSGPACK); }
 VF_PROPERTY(skip_dyn_json, 4, "same through JSON") { run_dyn<JsonArchive>(c, JSON); }
